@@ -191,10 +191,14 @@ pub fn mutate(r: &mut Rng, v: &Value) -> Value {
 pub fn json_stream(r: &mut Rng, n: u64, thorough: bool, out: &mut Out) {
     let mut case = 0u64;
     for i in 0..n {
-        let size = match r.below(8) {
-            0 => 0,
-            1..=5 => r.range(1, 4),
-            _ => r.range(4, 10),
+        let size = if gen::small() {
+            r.range(0, 2)
+        } else {
+            match r.below(8) {
+                0 => 0,
+                1..=5 => r.range(1, 4),
+                _ => r.range(4, 10),
+            }
         } as u32;
         let reg = if i % 2 == 0 { gen::wild_registry(r, size) } else { gen::wf_registry(r, size) };
         let (v, s) = run_ser(&reg);
